@@ -23,6 +23,16 @@ def run(ctx: Ctx):
     )
     report_op(ctx, "R10.a", TEXT)
 
+    ctx.rule(
+        "R10.d",
+        "the traversal order of a set depends on the order in which its elements were inserted - that is on the text: no set-iteration order "
+        "(nor a sort with a non-injective key, which keeps it among ties) reaches those sinks either",
+        floor=20,
+    )
+    from sa.op import HASH
+
+    report_op(ctx, "R10.d", HASH)
+
     # ---- R10.b the transformer discards textual order -------------------------------------------
     ctx.rule("R10.b", "the transformer collects the atoms of each component into sets (discarding the order of blocks, entries and lines) before components are built", floor=3)
     from . import util
@@ -38,6 +48,11 @@ def run(ctx: Ctx):
     ann = oc.annotations()
     bad = {k: v for k, v in ann.items() if k in ("states", "parameters", "assignments", "state_derivatives", "intermediates") and not v.startswith("frozenset[")}
     ctx.check(not bad, "R10.b", f"src/gotranx/ode_component.py::BaseComponent::fields", "component fields are frozensets", f"BaseComponent fields that are not frozensets (their order would follow the text): {bad}", oc.where())
+
+    ctx.rule("R10.e", "a name is defined at most once: of two definitions that compare equal (equality ignores the expression tree) a set keeps the one inserted first, i.e. the one written first", floor=3)
+    from .c08 import check_redefinition_guard
+
+    check_redefinition_guard(ctx, "R10.e")
 
     # ---- R10.c ODE.__eq__ compares canonical values ------------------------------------------------
     ctx.rule("R10.c", "ODE.__eq__ compares name, comments and the components in an order that does not follow the text", floor=1)
